@@ -290,6 +290,40 @@ let promo_family (r : rng) (count : int) : (bool * spos) list =
   done;
   !out
 
+(* ---------- targeted family: same placement, different castling rook (Chess960): equal hash, different positions ---------- *)
+let rook_identity_pairs (r : rng) (count : int) : (spos * spos) list =
+  let out = ref [] in
+  let tries = ref 0 in
+  while List.length !out < count && !tries < count * 40 do
+    incr tries;
+    let s = if chance r 1 2 then White else Black in
+    let them = if s = White then Black else White in
+    let base = if s = White then 0 else 56 in
+    let a = empty_board () in
+    let kf = 2 + rand r 4 in
+    a.(base + kf) <- Some (s, King);
+    let kingside = chance r 1 2 in
+    (* two rooks on one wing *)
+    let files = if kingside then List.init (7 - kf) (fun i -> kf + 1 + i) else List.init kf (fun i -> i) in
+    if List.length files >= 2 then begin
+      let f1 = pick r files in
+      let f2 = pick r (List.filter (fun f -> f <> f1) files) in
+      a.(base + f1) <- Some (s, Rook); a.(base + f2) <- Some (s, Rook);
+      let ek = (if s = White then 56 else 0) + rand r 8 in
+      a.(ek) <- Some (them, King);
+      for _ = 1 to rand r 3 do
+        let q = 16 + rand r 32 in
+        if a.(q) = None then a.(q) <- Some ((if chance r 1 2 then s else them), [| Pawn; Knight; Pawn |].(rand r 3))
+      done;
+      let mk f = let o = Some (base + f) in
+        if s = White then (if kingside then spos_of_array a s ~wk:o () else spos_of_array a s ~wq:o ())
+        else (if kingside then spos_of_array a s ~bk:o () else spos_of_array a s ~bq:o ()) in
+      let pa = mk f1 and pb = mk f2 in
+      if lc true pa && lc true pb then out := (pa, pb) :: !out
+    end
+  done;
+  !out
+
 (* ---------- pawn skeletons (C18) ---------- *)
 let pawn_skeleton (r : rng) : spos option =
   let a = empty_board () in
